@@ -837,6 +837,10 @@ func (x *VC) applyContract(callee *ssa.Function, c *Contract, key string, sig *t
 		x.assume(reach, cond.T)
 		x.externs["assumed postcondition of "+key+" ["+e.Label+"]"] = true
 	}
+	for _, e := range c.Checks {
+		cond := x.evalSpec(e.E, env2)
+		x.assume(reach, cond.T)
+	}
 	// vacuity guard: the assumed postcondition must not contradict what is known at this point
 	if len(c.Ensures) > 0 && x.specMode == 0 {
 		if o := x.addObl("cover:after-call", key, pos, reach, "true"); o != nil {
